@@ -696,6 +696,26 @@ pub fn run_hs(cfg: &HsCfg, sc: &mut Sc) -> HsTrace {
             }
         }
 
+        // ---- after a read of the GENUINE message failed for a reason of the reader's own (payload buffer too small, psk
+        // not yet set), a same-length ALTERED message must still be rejected: a retry must not be recognised by part
+        // of the message only (seeded round 6, C03-I / C03-J: "resume" caches keyed on position, length, ephemeral)
+        let reader_failed = faults.iter().any(|f| matches!(f, Fault::ReadCapShort(d) if plen >= *d && *d > 0))
+            || (faults.iter().any(|f| matches!(f, Fault::MissingPsk)) && missing.iter().any(|(mk, _)| *mk == k));
+        if reader_failed && matches!(fields.last(), Some(Field::Payload { enc: true })) && !msg.is_empty() {
+            for _ in 0..2 {
+                let mut alt = msg.clone();
+                let i = r.below(alt.len());
+                alt[i] ^= 1 << r.below(8);
+                sc.count("fault.altered_after_failed_read");
+                let o = sc.ex.hs_read(rd, &alt, 70000);
+                sc.check_panic(&o, "hs_read altered after a failed read");
+                if o.is_ok() {
+                    sc.viol("C03", format!("{name}: after a failed read of the genuine message {k}, the same message with byte {i} altered was accepted"));
+                    return tr;
+                }
+            }
+        }
+
         // ---- genuine delivery
         let cap = plen + [0usize, 0, 1, 16, 1000][pr.below(5)];
         let o = sc.ex.hs_read(rd, &msg, cap);
